@@ -527,6 +527,7 @@ impl Engine {
                         self.cov.oracle("C17");
                         if !matches!(r, Ok(Err(Error::Argument))) || digest(&self.inst.as_ref().unwrap().words()) != before {
                             viol!(self, "C17", format!("zone get below the offset: {r:?}"));
+                            viol!(self, "C08", format!("zone get below the offset was not rejected with Argument: {r:?}"));
                         }
                         self.cov.hit("zget", "below", "");
                         return match r {
@@ -674,6 +675,7 @@ impl Engine {
                     self.cov.oracle("C17");
                     if !matches!(r, Ok(Err(Error::Argument))) || digest(&self.inst.as_ref().unwrap().words()) != before {
                         viol!(self, "C17", format!("zone put below the offset: {r:?}"));
+                        viol!(self, "C08", format!("zone put below the offset was not rejected with Argument: {r:?}"));
                     }
                     self.cov.hit("zput", "below", "");
                     return match r {
